@@ -263,10 +263,17 @@ def int_scale(xs, ys, h, c, a, b):
     """sum of the magnitudes of the terms of the antiderivative differences Integrate adds up (see DESIGN 5.3)"""
     t = 0.0
     for (u, v) in pieces(xs, a, b):
-        j = locate_ref(xs, 0.5 * (u + v))
-        if j is None: j = 0 if u < xs[0] else len(xs) - 2
-        dy = abs(ys[j + 1] - ys[j]); ym = max(abs(ys[j]), abs(ys[j + 1]))
-        t += 2 * abs(c) * (5.5 * dy * h[j] + ym * max(abs(u), abs(v), abs(xs[j]), abs(xs[j + 1])))
+        # the segment whose antiderivative the code differences for this piece: the one holding the piece; for a piece only a few ulp wide next
+        # to a knot the midpoint rounds onto the knot, so the segments located from the left end and from the midpoint both count
+        js = []
+        for x in (u, 0.5 * (u + v)):
+            j = locate_ref(xs, x)
+            if j is None: j = 0 if u < xs[0] else len(xs) - 2
+            if j not in js: js.append(j)
+            if x == xs[j] and j > 0 and (j - 1) not in js: js.append(j - 1)
+        for j in js:
+            dy = abs(ys[j + 1] - ys[j]); ym = max(abs(ys[j]), abs(ys[j + 1]))
+            t += 2 * abs(c) * (5.5 * dy * h[j] + ym * max(abs(u), abs(v), abs(xs[j]), abs(xs[j + 1])))
     return t
 
 
